@@ -204,6 +204,14 @@ func (g *Governance) Plan(c *Ctx) []hist.TxSpec {
 						out = append(out, g.vote(c, p, genVals[0], governance.OPIN_POSITIVE))
 					}
 					out = append(out, g.lateVoter(c, p)...)
+					// an outsider asks for the expiry one block before the deadline, in the block whose height
+					// is the deadline, and later: only after the deadline has passed may it succeed
+					if c.H == rec.VotingDeadline-1 || c.H == rec.VotingDeadline {
+						u := us[2%len(us)]
+						sp := BuildFee(c, "EXPIRE_VOTES", &govact.ExpireVotes{ProposalID: governance.ProposalID(p.id), ValidatorAddress: u.Addr}, txb.Fee("1000000000", 400000), fmt.Sprintf("expiry requested by an outsider at height %d, voting deadline %d", c.H, rec.VotingDeadline), u)
+						sp.Meta = map[string]string{"proposal": p.id}
+						out = append(out, sp)
+					}
 					continue
 				}
 				op := governance.OPIN_POSITIVE
